@@ -89,7 +89,7 @@ func c15Scenarios(tier string) (rulesSc, lockSc []CScenario) {
 // C15 explores interleavings and checks that no execution deadlocks and every request completes.
 func C15(tier string) int {
 	b1, b2 := 2, 3
-	budget := 100 * time.Second
+	budget := 300 * time.Second
 	if tier == "thorough" {
 		b1, b2 = 3, 4
 		budget = 60 * time.Minute
@@ -97,15 +97,20 @@ func C15(tier string) int {
 	rulesSc, lockSc := c15Scenarios(tier)
 	var jobs []concJob
 	// Interleave cheap and expensive jobs so that shards are balanced.
+	// Two-thread scenarios: every interleaving; larger ones: preemption bound (thorough tries without a bound first).
+	allCap := 30 * time.Second
+	if tier == "thorough" {
+		allCap = 3 * time.Minute
+	}
 	for _, cs := range lockSc {
 		b := b2
 		if len(cs.Threads) > 3 {
 			b = b2 - 1
 		}
-		jobs = append(jobs, concJob{cs: cs, lockOnly: true, bound: b})
+		jobs = append(jobs, concJob{cs: cs, lockOnly: true, bound: b, all: len(cs.Threads) == 2 || tier == "thorough", allCap: allCap})
 	}
 	for _, cs := range rulesSc {
-		jobs = append(jobs, concJob{cs: cs, bound: b1})
+		jobs = append(jobs, concJob{cs: cs, bound: b1, all: len(cs.Threads) == 2 || tier == "thorough", allCap: allCap})
 	}
 	if sh, n, ok := parseShard(); ok {
 		runConcShard(jobs, sh, n, time.Now().Add(budget))
@@ -118,7 +123,7 @@ func C15(tier string) int {
 		"blocking outside the shim is caught by a per-step watchdog and classified by free-running the execution (uncontrolled executions are reported, never alarmed unless they do not finish)",
 		"the 'sustained random load' clause of the property is sampling and is not decided here",
 	}
-	return concFinish(run, results, err, fmt.Sprintf("every interleaving with at most the stated number of preemptions (lock-only mode with an approve-all rules stub: bound %d; real rules and store: bound %d) of 2-4 concurrent requests whose key lists are ordered selections from {k0,k1,k2}; oracle: no deadlock state and every request returns; a scenario is non-trivial if it has more than one execution (lock-only) or more than one verdict vector", b2, b1))
+	return concFinish(run, results, err, fmt.Sprintf("every interleaving (scenarios marked all_interleavings in per_scenario, i.e. all with two threads: without any bound; the others: with at most the stated number of preemptions; lock-only mode with an approve-all rules stub: bound %d; real rules and store: bound %d) of 2-4 concurrent requests whose key lists are ordered selections from {k0,k1,k2}; oracle: no deadlock state and every request returns; a scenario is non-trivial if it has more than one execution (lock-only) or more than one verdict vector", b2, b1))
 }
 
 func init() {
